@@ -628,6 +628,26 @@ fn compile_run_k(_case: &Value, inputs: &Value) -> Value {
     json!({"compiled": tree_to_json(&a, prog), "result": result})
 }
 
+// an interactive session: every line through Repl::process_line, the results printed the way the REPL prints them
+fn repl_k(_case: &Value, inputs: &Value) -> Value {
+    use chialisp::compiler::compiler::DefaultCompilerOpts;
+    use chialisp::compiler::comptypes::CompilerOpts;
+    use chialisp::compiler::repl::Repl;
+    let mut a = Allocator::new();
+    let opts: Rc<dyn CompilerOpts> = Rc::new(DefaultCompilerOpts::new("*repl*"));
+    let runner = Rc::new(DefaultProgramRunner::new());
+    let mut repl = Repl::new(opts, runner);
+    let mut outs = Vec::new();
+    for l in inputs["lines"].as_array().unwrap().iter() {
+        match repl.process_line(&mut a, l.as_str().unwrap().to_string()) {
+            Ok(Some(bf)) => outs.push(json!(bf.to_sexp().to_string())),
+            Ok(None) => outs.push(json!("Ok:None")),
+            Err(e) => outs.push(json!(format!("Err:{}", e.1))),
+        }
+    }
+    json!({"outputs": outs})
+}
+
 // the unused-argument check through its public entry point
 fn check_unused_k(_case: &Value, inputs: &Value) -> Value {
     use chialisp::classic::clvm_tools::debug::check_unused;
@@ -926,6 +946,7 @@ pub fn dispatch(kernel: &str, case: &Value, inputs: &Value) -> Value {
         "compile_run" => compile_run_k(case, inputs),
         "compile_text" => compile_text_k(case, inputs),
         "check_unused" => check_unused_k(case, inputs),
+        "repl" => repl_k(case, inputs),
         "read_new_file" => read_new_file_k(case, inputs),
         "atomic_write" => atomic_write_k(case, inputs),
         "intmode" => intmode_k(case, inputs),
